@@ -43,6 +43,7 @@ OBLIGATIONS = [
     "VgiVerif.C34.C34_message",
     "VgiVerif.C34.C34_message_formatted",
     "VgiVerif.C34.C34_keys",
+    "VgiVerif.C34.C34_one_line",
 ]
 EXTRACTORS = ["gen_c34"]
 TRUSTED = [
@@ -52,6 +53,8 @@ TRUSTED = [
     "the Lean JSON-schema evaluator (Prelude/JsonSchema.lean) and the extractor's transcription of access_log.schema.json are "
     "compared with python-jsonschema on generated instances at every run, not proved equal to it",
     "`_encoded_len` of the formatter is an arbitrary oracle in the model (any function); K2 feeds the real answers",
+    "C34_one_line models json.dumps' string escaping (checked against the formatter's real lines on every run) and assumes numbers and "
+    "the nested claims object print as printable ASCII (`TokensOk`); the set of characters `str.splitlines` cuts at is written into Spec",
     "the call-state cache (LRU, TTL) is an arbitrary hit/miss oracle per request in the model (`Env.cacheHit`); where "
     "`_unpack_and_recover_state` publishes the stream id (hit path / miss path / both) is extracted (`sidOnHit`, `sidOnMiss`) and the "
     "runs cover cache sizes 0 / 1 / 2 / default, interleaved streams and a cold second worker",
@@ -66,6 +69,8 @@ PARTIAL = [
     "the two input-refusal error paths of _run_http_exchange_turn (unresolvable external pointer -> 500, input batch refused by the "
     "declared schema -> 400) have their http_status extracted and pinned, but generated exchanges send inline conforming batches, so "
     "the model's exchange turn only takes the state.process() path",
+    "lone surrogates in exception texts are only fed to the formatter / file handler directly (text-record cases): the RPC layers "
+    "themselves cannot carry them (UnicodeEncodeError in the error batch / log metadata — C07/C08 territory)",
     "status theorems for streams are stated for fully consumed calls (producer drained, exchange not continued after its first "
     "error); for partially consumed HTTP producers the server runs ahead of the client and only per-response statements hold",
 ]
@@ -77,7 +82,11 @@ RULE = (
     "logger level {INFO, DEBUG} x (HTTP) call-state cache {default, 0 = every continuation misses, 1 = evicted by any other stream} x "
     "{one worker, cold second worker serving everything after /init} x {calls in sequence, all stream calls alive at once and served "
     "round-robin}; a case = (program, transport, level, cache, worker, interleaving); non-trivial when it has a stream or a failing call; "
-    "plus generated schema instances (valid base + 1-3 mutations incl. pattern near-misses) and formatter runs at caps 120-1500"
+    "plus generated schema instances (valid base + 1-3 mutations incl. pattern near-misses) and formatter runs at caps 120-1500; "
+    "exception texts also contain U+2028 / U+2029 / U+0085 / VT / FF / FS-RS / DEL / astral characters, and every run also writes "
+    "the records through a real FileHandler + VgiAccessLogFormatter (default and small cap) and reads the file back like the shipped "
+    "validator (read_text().splitlines() -> json -> filter); text-record cases put such texts and lone surrogates into "
+    "error_message / principal / claims / method of a record written through the file handler"
 )
 MANIFEST = {
     "level": "proof",
@@ -119,6 +128,9 @@ class Rig:
     def __init__(self) -> None:
         from vgi_rpc.http import _testing
 
+        import tempfile
+
+        self.tmp = tempfile.TemporaryDirectory(prefix="c34-")
         self.cap = _Capture()
         self.lg = logging.getLogger(LOGGER)
         self._old = (self.lg.level, self.lg.propagate, list(self.lg.handlers))
@@ -167,6 +179,7 @@ class Rig:
         self._cls.post = self._orig_post  # type: ignore[method-assign]
         self._testing.make_sync_client = self._orig_make  # type: ignore[assignment]
         self._cold.clear()
+        self.tmp.cleanup()
         self.lg.removeHandler(self.cap)
         lvl, prop, hs = self._old
         self.lg.setLevel(lvl)
@@ -199,12 +212,97 @@ def violations(obj: dict[str, Any]) -> list[tuple[str, str]]:
     return [(v.path, v.message) for v in validate_access_logs([obj])]
 
 
+class FileSink:
+    """The access log as a deployment has it: `logging.FileHandler(path, encoding="utf-8")` + `VgiAccessLogFormatter` on the
+    access logger (what `_configure_access_log` installs), read back the way the shipped validator reads it
+    (`access_log_conformance.main`: `path.read_text().splitlines()` -> `_parse_json_log_lines` -> `_filter_access_logs`)."""
+
+    def __init__(self, directory: str, caps: list[int]) -> None:
+        from pathlib import Path
+
+        from vgi_rpc.logging_utils import VgiAccessLogFormatter
+
+        self.lg = logging.getLogger(LOGGER)
+        self.paths: dict[int, Any] = {}
+        self.handlers: list[logging.Handler] = []
+        FileSink.n += 1
+        for cap in caps:
+            path = Path(directory) / f"access-{FileSink.n}-{cap}.jsonl"
+            h = logging.FileHandler(str(path), mode="a", encoding="utf-8")
+            h.setFormatter(VgiAccessLogFormatter(max_record_bytes=cap))
+            self.lg.addHandler(h)
+            self.paths[cap] = path
+            self.handlers.append(h)
+
+    n = 0
+
+    def read_back(self) -> dict[int, tuple[int, list[dict[str, Any]]]]:
+        """cap -> (physical lines as the reader splits them, parsed access-log entries); the files are removed."""
+        from vgi_rpc.access_log_conformance import _filter_access_logs, _parse_json_log_lines
+
+        for h in self.handlers:
+            self.lg.removeHandler(h)
+            h.close()
+        out: dict[int, tuple[int, list[dict[str, Any]]]] = {}
+        for cap, path in self.paths.items():
+            lines = path.read_text().splitlines()
+            out[cap] = (len([x for x in lines if x.strip()]), _filter_access_logs(_parse_json_log_lines(lines)))
+            path.unlink()
+        return out
+
+
+def odd_chars(obj: Any) -> str:
+    """which line-boundary-like / non-ASCII characters a record's strings contain (for failure keys)"""
+    text = json.dumps(obj, ensure_ascii=False, default=str) if not isinstance(obj, str) else obj
+    names = {"\u2028": "U+2028", "\u2029": "U+2029", "\x85": "U+0085", "\x0b": "VT", "\x0c": "FF", "\x1c": "FS", "\x1d": "GS", "\x1e": "RS"}
+    found = [n for ch, n in names.items() if ch in text]
+    if any(0xD800 <= ord(ch) <= 0xDFFF for ch in text):
+        found.append("lone-surrogate")
+    return "+".join(found) if found else ("non-ascii" if any(ord(ch) > 0x7E for ch in text) else "ascii")
+
+
+def check_file(ctx: Any, case: dict[str, Any], where: str, sink: FileSink, recs: list[logging.LogRecord]) -> None:
+    """O on the file as read back: as many entries as records were emitted, each on its own line, equal to the record, valid."""
+    for cap, (nlines, entries) in sink.read_back().items():
+        ccase = {**case, "file_cap": cap}
+        try:
+            want = [fmt_line(x, cap) for x in recs]
+        except Exception as e:  # noqa: BLE001
+            ctx.fail(ccase, f"C34:file:format-raises:{type(e).__name__}:{odd_chars([getattr(x, 'error_message', '') for x in recs])}",
+                     f"{where}: VgiAccessLogFormatter(max_record_bytes={cap}).format raised {type(e).__name__}: {str(e)[:120]} — the handler "
+                     f"drops such a record; the file has {len(entries)} entries")
+            continue
+        if nlines != len(want) or len(entries) != len(want):
+            lost = [w for w in want if w not in entries]
+            ctx.fail(ccase, f"C34:file:{'records-lost' if len(entries) < len(want) else 'extra-entries'}:{odd_chars(lost[:1] or want)}",
+                     f"{where}: {len(want)} records were emitted; the log file read back like the shipped validator does "
+                     f"(read_text().splitlines() -> json) has {nlines} lines and {len(entries)} access-log entries"
+                     + (f"; first lost record: {short(slim(lost[0]))}" if lost else ""))
+            continue
+        for j, (w, e) in enumerate(zip(want, entries)):
+            if w != e:
+                ctx.fail({**ccase, "record": j}, f"C34:file:record-differs:{odd_chars(w)}", f"{where}: entry {j} read back {short(slim(e))}, emitted {short(slim(w))}")
+                break
+        for j, e in enumerate(entries):
+            for path, msg in violations(e)[:1]:
+                ctx.fail({**ccase, "record": j}, f"C34:file:schema:{path}", f"{where}: entry {j} of the file fails the schema at {path}: {msg[:160]}")
+
+
 # ------------------------------------------------------------------------------------------ generators
+
+
+# characters a line-splitting reader may cut at (str.splitlines: \n \r \x0b \x0c \x1c \x1d \x1e \x85 \u2028 \u2029), DEL, other
+# non-ASCII incl. astral; texts that travel through the RPC machinery must be encodable (lone surrogates only reach the formatter
+# directly: SURROGATE_TEXTS)
+SEPARATOR_TEXTS = ["line one\u2028line two", "para one\u2029para two", "first\x85second", "vt\x0bff\x0cfs\x1cgs\x1drs\x1eend",
+                   "\u2028", "\x85", "del\x7fx", "astral \U0001F600 \U00010000 \U0010FFFF", "mixed é\u2028\n\x85\u2029\r\x1c" * 3,
+                   "s\u2028" * 300, "日本語\u2029テキスト"]
+SURROGATE_TEXTS = ["a\ud800b", "\udfff", "hi \udc80 file name", "\ud83d alone then \ude00"]
 
 
 def gen_msg(rng: Any, big: bool) -> str:
     pool = ["", "", "boom", "bad value: ü", "multi\nline\r\nmsg", "tab\tq\"uote\\", " ", "\n", "x" * 500, "y" * 501, "z" * 2000,
-            "é" * 700, "line1\n" * 120]
+            "é" * 700, "line1\n" * 120] + SEPARATOR_TEXTS
     if big:
         pool += ["w" * 100_000, "m\n" * 30_000]
     return rng.choice(pool)
@@ -618,6 +716,7 @@ def check_run(ctx: Any, rig: Rig, prog: list[dict[str, Any]], cfg: Config, debug
     rig.cold = cold
     rig._cold.clear()
     wk = {"call_state_cache_entries": cache} if cache is not None else None
+    sink = FileSink(rig.tmp.name, [DEFAULT_CAP] + small_caps[:1])
     try:
         if interleave:
             r = run_interleaved(desc, prog, cfg, wk)
@@ -634,17 +733,20 @@ def check_run(ctx: Any, rig: Rig, prog: list[dict[str, Any]], cfg: Config, debug
     if interleave:
         if r["hung"]:
             ctx.fail(case, f"C34:hung:{fam}", f"interleaved program did not complete on {where}")
+            sink.read_back()
             return
         traces = r["traces"]
         split = split_by_name(r["events"], recs, prog)
     else:
         if r["hung"] or len(r["trace"]) != len(script):
             ctx.fail(case, f"C34:hung:{fam}", f"script did not complete on {where} ({len(r['trace'])}/{len(script)} ops)")
+            sink.read_back()
             return
         spans = op_spans(prog)
         traces = [r["trace"][a:b] for a, b in spans]
         split = split_events(r["events"], http, len(prog))
     lines = [fmt_line(x) for x in recs]
+    check_file(ctx, case, where, sink, recs)
 
     # ---------------------------------------------------------------- O: once
     if split is None:
@@ -920,6 +1022,58 @@ def check_formatter(ctx: Any, rec: logging.LogRecord, cap: int, variant: str) ->
         ctx.mismatch(case, "SchemaOk = false", "valid", "formatter: Lean schema verdict on the formatted record")
 
 
+def check_text_record(ctx: Any, rig: Rig, base: logging.LogRecord, text: str, field: str) -> None:
+    """One record whose `field` carries `text` (any str, lone surrogates included) written through the real file handler:
+    O = the file read back has exactly that record, whole; K = the Lean `renderStr` is the JSON text the formatter wrote."""
+    rec = copy.copy(base)
+    if field == "error_message":
+        rec.status, rec.error_type, rec.error_message = "error", "ValueError", text
+        rec.msg, rec.args = "%s", ("GenProto.m error",)
+    elif field == "claims":
+        rec.claims = {"sub": "[redacted]", "tenant": text, "nested": {"k": [text]}}
+    else:
+        setattr(rec, field, text)
+    case = {"kind": "text-record", "field": field, "text": [ord(c) for c in text],
+            "base": {k: v for k, v in fmt_line(base).items() if k not in ("timestamp",)}}
+    ctx.case(case, nontrivial=True, tags=(f"text-record:{field}:{odd_chars(text)}",))
+    sink = FileSink(rig.tmp.name, [DEFAULT_CAP, 300])
+    old = logging.raiseExceptions
+    logging.raiseExceptions = False  # a handler that fails drops the record silently in production, too
+    try:
+        for h in sink.handlers:
+            h.handle(rec)
+    finally:
+        logging.raiseExceptions = old
+    check_file(ctx, case, f"record with {field} = {text[:20]!r}… ({odd_chars(text)})", sink, [rec])
+    if ctx.driver is None or field != "error_message" or any(0xD800 <= ord(c) <= 0xDFFF for c in text):
+        return
+    try:
+        line = formatter(DEFAULT_CAP).format(rec)
+    except Exception:  # noqa: BLE001
+        return
+    want = "".join(chr(c) for c in ctx.driver.call("C34.renderStr", {"s": s2j(text)}))
+    if f'"error_message": {want}' not in line:
+        i = line.find('"error_message": ')
+        ctx.mismatch(case, want[:200], line[i + 17:i + 217] if i >= 0 else line[:200], "JSON text of a string value: Lean renderStr vs the formatter's line")
+
+
+def k_text_records(ctx: Any, rig: Rig, n: int) -> None:
+    if not rig.cap.records:
+        return
+    pool = list(rig.cap.records)
+    rng = ctx.rng
+    texts = SEPARATOR_TEXTS + SURROGATE_TEXTS + ["plain", "", "q\"b\\s/ \t\r\n\x00\x01\x1f\x08\x0c", "é ü \xa0 \xff", "\U0001F600"]
+    for t in texts:
+        for field in ("error_message", "principal", "claims"):
+            if t or field != "error_message":  # an error record with an empty message never leaves _emit_access_log (fallback)
+                check_text_record(ctx, rig, rng.choice(pool), t, field)
+    alphabet = ["a", " ", "\"", "\\", "\n", "\r", "\t", "\x00", "\x0b", "\x0c", "\x1c", "\x1d", "\x1e", "\x1f", "\x7f", "\x80", "\x85", "\xa0",
+                "é", "\u2027", "\u2028", "\u2029", "\u202a", "\ufeff", "\uffff", "\U00010000", "\U0001F600", "\U0010FFFF", "\ud800", "\udfff"]
+    for _ in range(n):
+        t = "".join(rng.choice(alphabet) for _ in range(rng.choice([1, 2, 5, 12])))
+        check_text_record(ctx, rig, rng.choice(pool), t, rng.choice(["error_message", "error_message", "principal", "method", "claims"]))
+
+
 # ------------------------------------------------------------------------------------------ K3: schema transcription
 
 
@@ -1081,6 +1235,11 @@ def _corpus() -> list[list[dict[str, Any]]]:
         [{"kind": "producer", "m": p_err, "iters": [None], "fin": "close"}, {"kind": "producer", "m": p_err, "iters": [1], "fin": "cancel"},
          {"kind": "exchange", "m": x1, "sends": 3, "fin": "cancel"}, {"kind": "producer", "m": p_fin, "iters": [None], "fin": "cancel"},
          {"kind": "producer", "m": p_fin, "iters": [0], "fin": "close"}, {"kind": "exchange", "m": x1, "sends": 0, "fin": "close"}],
+        # texts with characters a line-splitting reader cuts at (the file read back must still hold every record, whole)
+        [U("u_ls", E("ValueError", "line one\u2028line two")), U("u_nel", E("RuntimeError", "first\x85second")),
+         {"kind": "producer", "m": P("p_ps", [S(em(1)), S(E("CustomError", "para one\u2029para two \U0001F600"))]), "iters": [None], "fin": "close"},
+         {"kind": "exchange", "m": X("x_ctl", [S(E("ValueError", "vt\x0bff\x0cfs\x1cgs\x1drs\x1e del\x7f"))]), "sends": 2, "fin": "cancel"},
+         {"kind": "producer", "m": P("f_ls", [], init=E("KeyError", "k\u2028\u2029\x85")), "iters": [None], "fin": "close"}],
         [{"kind": "producer", "m": P("p_none", [S("nothing")]), "iters": [None], "fin": "close"},
          {"kind": "producer", "m": P("p_hl", [], init=E("ValueError", "init\nfail")), "iters": [0], "fin": "close"},
          {"kind": "exchange", "m": X("x_hl", [], init=E("ValueError", "")), "sends": 1, "fin": "close"},
@@ -1161,6 +1320,7 @@ def run(ctx: Any) -> None:
             for _ in range(ctx.budget(40, 1500)):
                 check_formatter(ctx, rng.choice(pool), rng.choice([100, 200, 320, 450, 600, 800, 1100, 1500, 4000]),
                                 rng.choice(["plain", "claims", "data", "both"]))
+        k_text_records(ctx, rig, ctx.budget(60, 1500))
         k_schema(ctx, ctx.budget(400, 20000))
     finally:
         rig.close()
@@ -1195,6 +1355,15 @@ def replay(ctx: Any, case: dict[str, Any]) -> None:
         return
     rig = Rig()
     try:
+        if case.get("kind") == "text-record":
+            full = dict(case["base"])
+            base = logging.LogRecord(LOGGER, logging.INFO, __file__, 0, full.pop("message", "m"), None, None)
+            for k in ("level", "logger"):
+                full.pop(k, None)
+            for k, v in full.items():
+                setattr(base, k, v)
+            check_text_record(ctx, rig, base, "".join(chr(c) for c in case["text"]), case["field"])
+            return
         if case.get("kind") == "formatter":
             # rebuild a LogRecord carrying the stored (fully formatted) fields
             full = dict(case["record"])
